@@ -97,27 +97,19 @@ func (e *Engine) parseFieldDecls() error {
 	return nil
 }
 
-// memLeafSorts: the leaf sort at every memory leaf of t (arrays expanded).
+// memLeafSorts: the leaf sort at every memory offset of t ("" marks padding between
+// array elements, which is never accessed).
 func (e *Engine) memLeafSorts(t types.Type) []Sort {
-	switch u := t.Underlying().(type) {
-	case *types.Array:
-		var out []Sort
-		el := e.memLeafSorts(u.Elem())
-		if u.Len()*int64(len(el)) > 4096 {
-			unsup("protected field too large")
-		}
-		for i := int64(0); i < u.Len(); i++ {
-			out = append(out, el...)
-		}
-		return out
-	case *types.Struct:
-		var out []Sort
-		for i := 0; i < u.NumFields(); i++ {
-			out = append(out, e.memLeafSorts(u.Field(i).Type())...)
-		}
-		return out
+	n := e.size(t)
+	if n > 8192 {
+		unsup("protected field too large")
 	}
-	return e.layout(t)
+	out := make([]Sort, n)
+	ls := e.layout(t)
+	for i, o := range e.memOffsets(t) {
+		out[o] = ls[i]
+	}
+	return out
 }
 
 // readOnlyUse: does this use of an address only read through it?
@@ -509,6 +501,9 @@ func (x *Exec) instFrame(fr frameRec, a notedAddr) {
 		pref := Select(Select(fr.pre[SInt], a.ref, ObjSort(SInt)), fo, SInt)
 		poff := Select(Select(fr.pre[SBV64], a.ref, ObjSort(SBV64)), offAdd(fo, 1), SBV64)
 		for i, k := range fr.fd.ptSorts {
+			if k == "" {
+				continue
+			}
 			oo := offAdd(poff, int64(i))
 			eqs = append(eqs, Eq(Select(Select(fr.post[k], pref, ObjSort(k)), oo, k), Select(Select(fr.pre[k], pref, ObjSort(k)), oo, k)))
 		}
@@ -516,6 +511,9 @@ func (x *Exec) instFrame(fr frameRec, a notedAddr) {
 		return
 	}
 	for i, k := range fr.fd.sorts {
+		if k == "" {
+			continue
+		}
 		oo := offAdd(a.off, fr.fd.off+int64(i))
 		eqs = append(eqs, Eq(Select(Select(fr.post[k], a.ref, ObjSort(k)), oo, k), Select(Select(fr.pre[k], a.ref, ObjSort(k)), oo, k)))
 	}
@@ -783,6 +781,13 @@ func (e *Engine) standaloneTypes() []*types.Named {
 					structs = append(structs, n)
 				}
 			}
+		}
+	}
+	// by-value embedding among all collected struct types (including the external ones)
+	for _, n := range structs {
+		st := n.Underlying().(*types.Struct)
+		for i := 0; i < st.NumFields(); i++ {
+			mark(st.Field(i).Type(), 0)
 		}
 	}
 	e.standaloneList = []*types.Named{}
